@@ -3,6 +3,7 @@ package main
 // Family "encoder" (C04 JSON, C05 logfmt, C06 colored console).
 //
 //	worker enc <cases.json> <trace.ndjson> <details.ndjson>
+//	worker enc sites          lists the call sites behind //line directives (fam_encoder_sites.go)
 //
 // Every case is an ABSTRACT record of spec/Encoder.tla (message = sequence of character
 // classes, attributes = tree of [key id, key class, kind, value class, value id]).  The worker
@@ -74,6 +75,7 @@ type encRec struct {
 	Name    encName    `json:"name"`
 	Sev     int        `json:"sev"`
 	Caller  bool       `json:"caller"`
+	CFile   string     `json:"cfile"` // class of the special character in the file name of the call site ("plain": none)
 	Width   int        `json:"width"`
 	Minw    int        `json:"minw"`
 	Msg     []string   `json:"msg"`
@@ -85,6 +87,7 @@ type encCase struct {
 	encRec
 	Probe *encProbe `json:"probe,omitempty"`
 	Salt  int       `json:"salt"`  // varies the representatives of one abstract case
+	Site  int       `json:"site"`  // 0: the worker's own call site; k > 0: the k-th //line site of class CFile
 	ByVar bool      `json:"byvar"` // enumerate the concrete Go types / boundary values by Salt
 }
 
@@ -509,6 +512,59 @@ func encCallSite() (pc uintptr, file string, line int, fn string) {
 	return pcs[0], fr.File, fr.Line, fr.Function
 }
 
+// ---- call sites behind //line directives (generated: fam_encoder_sites.go)
+
+// encLineSite is a real call site of this program whose source position carries the file name
+// `file` (a //line or /*line*/ directive): `at` captures a program counter inside it, `do` logs a
+// record from it through a public entry point (history component).
+type encLineSite struct {
+	cls   string // character class of spec/Encoder.tla the file name carries
+	file  string // the file name as written in the directive
+	probe string // the special character that sits between the sentinels in the name ("" = no sentinels)
+	at    func() (pc uintptr, file string, line int, fn string)
+	do    func(l *slog.Entry, via string, lvl slog.Level, msg string, args []any) (line int, file, fn string)
+}
+
+// encSiteHere reports the statement of its caller: the pc handed to Entry.WriteThru and what
+// the runtime says about it.
+//
+//go:noinline
+func encSiteHere() (pc uintptr, file string, line int, fn string) {
+	var pcs [1]uintptr
+	runtime.Callers(2, pcs[:])
+	fr, _ := runtime.CallersFrames(pcs[:]).Next()
+	return pcs[0], fr.File, fr.Line, fr.Function
+}
+
+var encBg = context.Background()
+
+// encSiteOf: the k-th (1-based, wrapping) site of a class.
+func encSiteOf(cls string, k int) *encLineSite {
+	var of []*encLineSite
+	for i := range encLineSites {
+		if encLineSites[i].cls == cls {
+			of = append(of, &encLineSites[i])
+		}
+	}
+	if len(of) == 0 || k < 1 {
+		return nil
+	}
+	return of[(k-1)%len(of)]
+}
+
+// encListSites prints every //line site with the file name the runtime really reports for it.
+func encListSites() int {
+	out := []map[string]any{}
+	for i := range encLineSites {
+		s := &encLineSites[i]
+		_, file, line, fn := s.at()
+		out = append(out, map[string]any{"cls": s.cls, "file": strconv.QuoteToASCII(s.file), "probe": strconv.QuoteToASCII(s.probe),
+			"runtime": strconv.QuoteToASCII(file), "line": line, "fn": fn, "ok": file == s.file && line > 0})
+	}
+	fmt.Println(encJSONString(out))
+	return 0
+}
+
 type encCapture struct{ chunks [][]byte }
 
 func (c *encCapture) Write(p []byte) (int, error) {
@@ -549,6 +605,9 @@ func encLogger(format, name string, has bool) *slog.Entry {
 }
 
 func encMain(args []string) int {
+	if len(args) >= 1 && args[0] == "sites" {
+		return encListSites()
+	}
 	if len(args) < 3 {
 		fmt.Fprintln(os.Stderr, "usage: worker enc <cases.json> <trace.ndjson> <details.ndjson>")
 		return 2
@@ -611,7 +670,21 @@ func encMain(args []string) int {
 			lcFg, lcBg = encSetColours(c.Sev, c.LC, r.g.r)
 		}
 		encCap.chunks = encCap.chunks[:0]
+		if c.CFile == "" {
+			c.CFile = "plain"
+		}
 		pc, file, line, fn := encCallSite()
+		if c.Site > 0 { // a call site behind a //line directive whose file name carries a character of class CFile
+			ls := encSiteOf(c.CFile, c.Site)
+			if ls == nil {
+				fmt.Fprintf(os.Stderr, "worker enc: no //line call site of class %q\n", c.CFile)
+				return 2
+			}
+			pc, file, line, fn = ls.at()
+			if pr != nil && pr.Pos == "cfile" {
+				r.g.last = ls.probe
+			}
+		}
 		if !c.Caller {
 			pc = 0
 		}
@@ -656,7 +729,7 @@ func encMain(args []string) int {
 		}
 		det.emit(map[string]any{"id": c.ID, "lc": []int{lcFg, lcBg}, "lcon": lcon,
 			"payload": strconv.QuoteToASCII(string(payload)), "msg": strconv.QuoteToASCII(r.msg),
-			"name": strconv.QuoteToASCII(r.name), "keys": encKeyList(r), "values": encValueList(c.Attrs), "panic": panicked, "unmatched": r.unmatched})
+			"name": strconv.QuoteToASCII(r.name), "site": strconv.QuoteToASCII(file), "keys": encKeyList(r), "values": encValueList(c.Attrs), "panic": panicked, "unmatched": r.unmatched})
 	}
 	return 0
 }
